@@ -20,8 +20,7 @@ META = dict(
         "independent interpreters of harness/langs.py",
         "harness/p07.py, impl_C07.py",
     ],
-    assumptions=["a trailing-axis range of a column-major array / leading-axis range of a row-major array selects a "
-                 "contiguous block of the flat data (slice_slowest)"],
+    assumptions=[],
 )
 
 PRELUDE = ("From Coq Require Import ZArith List Bool String.\n"
